@@ -31,6 +31,11 @@ pub enum Trigger {
     ForceElection(usize),
     /// settled cluster, force-election on two nodes at once
     ForceElectionTwice(usize, usize),
+    /// a settled cluster of n-1 nodes; node i is told `debug force-election` while the last node
+    /// starts and asks every node to let it join (a join handled by a node that is a candidate)
+    JoinDuringForcedElection(usize),
+    /// a settled cluster of n-1 nodes whose primary dies while the last node starts and joins
+    JoinDuringFailover,
 }
 
 #[derive(Clone, Debug)]
@@ -131,6 +136,23 @@ pub fn build(c: &Config) -> Result<NetWorld, String> {
             w.clients[ci].done = false;
             Ok(w)
         }
+        Trigger::JoinDuringForcedElection(i) => {
+            let mut w = settled_with_pids_partial(c.nodes, &c.pids)?;
+            w.add_client(*i, &[&format!("auth {} {}", USER, PWD)], false);
+            w.run_to_quiescence(1000)?;
+            let ci = w.clients.len() - 1;
+            w.clients[ci].script = vec!["debug force-election".to_string()].into();
+            w.clients[ci].done = false;
+            w.join_cluster(c.nodes - 1)?;
+            Ok(w)
+        }
+        Trigger::JoinDuringFailover => {
+            let mut w = settled_with_pids_partial(c.nodes, &c.pids)?;
+            let p = (0..c.nodes - 1).find(|i| w.role(*i) == ClusterRole::Primary).ok_or("no primary after bootstrap")?;
+            w.kill_node_lazily(p)?;
+            w.join_cluster(c.nodes - 1)?;
+            Ok(w)
+        }
         Trigger::ForceElectionTwice(a, b) => {
             let mut w = settled_with_pids(c.nodes, &c.pids)?;
             w.add_client(*a, &[&format!("auth {} {}", USER, PWD)], false);
@@ -211,7 +233,10 @@ pub fn configs(quick: bool) -> Vec<Config> {
     v.push(Config { nodes: 3, pids: vec![100, 200, 300], trigger: Trigger::PrimaryDiesNoticedLastBy(2) });
     v.push(Config { nodes: 3, pids: vec![100, 200, 300], trigger: Trigger::LateJoin });
     v.push(Config { nodes: 3, pids: vec![100, 200, 300], trigger: Trigger::ForceElection(1) });
+    v.push(Config { nodes: 3, pids: vec![100, 200, 300], trigger: Trigger::JoinDuringForcedElection(1) });
     if !quick {
+        v.push(Config { nodes: 3, pids: vec![100, 200, 300], trigger: Trigger::JoinDuringForcedElection(0) });
+        v.push(Config { nodes: 4, pids: vec![100, 200, 300, 400], trigger: Trigger::JoinDuringFailover });
         for i in [0, 2] {
             v.push(Config { nodes: 3, pids: vec![100, 200, 300], trigger: Trigger::ForceElection(i) });
         }
